@@ -63,14 +63,39 @@ pub struct Error { pub kind: ErrorKind }
 #[verifier::external_body]
 fn verif_error(kind: ErrorKind) -> (e: Error) ensures e.kind == kind { Error { kind } }
 
+// the value stack of a fiber: only truncation matters here
+#[verifier::external_body]
+pub struct StackS { _p: u8 }
+impl StackS {
+    #[verifier::external_body]
+    pub fn truncate(&mut self, size: usize) { unimplemented!() }
+}
 //@struct file=yarel/src/object.rs name=CallFrame map "*const u8" => "usize"
-//@struct file=yarel/src/object.rs name=ObjFiber keepfields=caller,frames
+//@struct file=yarel/src/object.rs name=ObjFiber keepfields=caller,stack,frames map "Stack<Value, STACK_MAX>" => "StackS" addfield "pub ghost closed_from: int"
 impl ObjFiber {
     //@fn file=yarel/src/object.rs path=ObjFiber::has_finished ret=r
     //@  ensures r == (self.frames@.len() == 0)
     //@end
+    // object.rs is_new: `self.frames.len() == 1 && <ip is at the start of the chunk>`
     #[verifier::external_body]
-    fn is_new(&self) -> bool { unimplemented!() }
+    fn is_new(&self) -> (r: bool) ensures r ==> self.frames@.len() == 1 { unimplemented!() }
+    // object.rs close_upvalues(index): closes every open upvalue whose slot is >= index; close_upvalues_for_frame does so
+    // for the current frame's slot base. Ghost bookkeeping: `closed_from` = the slot from which everything was closed by
+    // the most recent call.
+    #[verifier::external_body]
+    fn close_upvalues(&mut self, index: usize)
+        ensures final(self).frames == old(self).frames, final(self).caller == old(self).caller, final(self).closed_from == index,
+    { unimplemented!() }
+    #[verifier::external_body]
+    fn close_upvalues_for_frame(&mut self)
+        requires old(self).frames@.len() > 0
+        ensures final(self).frames == old(self).frames, final(self).caller == old(self).caller,
+            final(self).closed_from == old(self).frames@.last().slot_base,
+    { unimplemented!() }
+    #[verifier::external_body]
+    fn current_frame(&self) -> (r: Option<&CallFrame>)
+        ensures r is Some <==> self.frames@.len() > 0, r matches Some(f) ==> *f == self.frames@.last(),
+    { unimplemented!() }
     #[verifier::external_body]
     fn current_frame_mut(&mut self) -> (r: Option<&mut CallFrame>)
         // assumed: wherever the VM asks for the current frame the fiber has one (a C02 fact of Vm, not covered here)
@@ -84,7 +109,7 @@ fn option_root_as_gc(o: Option<Root<RefCell<ObjFiber>>>) -> (r: Option<Gc<RefCel
 #[verifier::external_body]
 fn clear_caller(current: Option<Root<RefCell<ObjFiber>>>) { unimplemented!() }
 
-//@struct file=yarel/src/vm.rs name=Vm keepfields=ip,fiber,unsafe_fiber map "*const u8" => "usize" map "*mut ObjFiber" => "FiberPtr"
+//@struct file=yarel/src/vm.rs name=Vm keepfields=ip,fiber,unsafe_fiber map "*const u8" => "usize" map "*mut ObjFiber" => "FiberPtr" addfield "pub ghost active: ObjFiber"
 
 impl Vm {
     // the representation invariant C10 rests on
@@ -94,16 +119,21 @@ impl Vm {
     pub open spec fn same_fiber_handles(&self, o: &Vm) -> bool {
         self.fiber == o.fiber && self.unsafe_fiber == o.unsafe_fiber
     }
+    // `active` (ghost): the content of the fiber object the handles designate, as far as frames / caller /
+    // upvalue-closing bookkeeping are concerned; the stack helpers below only touch its value stack
+    pub open spec fn same_active_frames(&self, o: &Vm) -> bool {
+        self.active.frames == o.active.frames && self.active.caller == o.active.caller && self.active.closed_from == o.active.closed_from
+    }
 
     // operand stack / frame helpers act on the active fiber's heap object, not on the two handles (assumed frames)
     #[verifier::external_body]
-    fn pop(&mut self) -> Value ensures old(self).same_fiber_handles(final(self)) { unimplemented!() }
+    fn pop(&mut self) -> Value ensures old(self).same_fiber_handles(final(self)), old(self).same_active_frames(final(self)) { unimplemented!() }
     #[verifier::external_body]
-    fn push(&mut self, value: Value) ensures old(self).same_fiber_handles(final(self)) { unimplemented!() }
+    fn push(&mut self, value: Value) ensures old(self).same_fiber_handles(final(self)), old(self).same_active_frames(final(self)) { unimplemented!() }
     #[verifier::external_body]
-    fn poke(&mut self, depth: usize, value: Value) ensures old(self).same_fiber_handles(final(self)) { unimplemented!() }
+    fn poke(&mut self, depth: usize, value: Value) ensures old(self).same_fiber_handles(final(self)), old(self).same_active_frames(final(self)) { unimplemented!() }
     #[verifier::external_body]
-    fn load_frame(&mut self) ensures old(self).same_fiber_handles(final(self)) { unimplemented!() }
+    fn load_frame(&mut self) ensures old(self).same_fiber_handles(final(self)), old(self).same_active_frames(final(self)) { unimplemented!() }
     // assumed: a fiber that is being switched to / from has at least one frame unless has_finished() (C02 fact of Vm)
     // The checked configuration reaches the active fiber through `fiber` (borrow-checked), the optimised one through
     // `unsafe_fiber`: the two builds touch the same fiber only if the handles agree AT EVERY ACCESS — hence the
@@ -111,12 +141,13 @@ impl Vm {
     #[verifier::external_body]
     fn active_fiber(&self) -> (r: &ObjFiber)
         requires self.fiber is Some, self.coherent(),
-        ensures r.frames@.len() > 0,
+        ensures *r == self.active,
     { unimplemented!() }
     #[verifier::external_body]
     fn active_fiber_mut(&mut self) -> (r: &mut ObjFiber)
         requires old(self).fiber is Some, old(self).coherent(),
         ensures old(self).same_fiber_handles(final(self)), final(self).ip == old(self).ip,
+            *r == old(self).active, final(self).active == *final(r),
     { unimplemented!() }
 
     //@fn file=yarel/src/vm.rs path=Vm::load_fiber ret=r
@@ -139,6 +170,14 @@ impl Vm {
     //@  ensures final(self).coherent()
     //@  ensures r is Err ==> old(self).same_fiber_handles(final(self))
     //@  ensures r matches Err(e) ==> e.kind is RuntimeError
+    //@end
+    // Returning from a frame: the frame's captured variables must have been closed by the time the frame is popped,
+    // also when it is the fiber's outermost frame (its stack dies with the fiber object).
+    //@fn file=yarel/src/vm.rs path=Vm::return_impl ret=r props=C06
+    //@  requires old(self).coherent(), old(self).fiber is Some, old(self).active.frames@.len() > 0
+    //@  ensures final(self).coherent()
+    //@  at body.start proof { self.active.closed_from = 0x7fff_ffff_ffff_ffff; }
+    //@  assert @popped_frame_upvalues_closed after_stmt "self.active_fiber_mut().frames.pop()" self.active.closed_from <= old(self).active.frames@.last().slot_base
     //@end
 }
 
